@@ -36,7 +36,7 @@ def recipe(c: Check):
         cnt = (c.cov.get("coq_counters") or {}).get("httpauth", {})
         need = ["NUNAUTH", "NFORWARD_PROTECTED", "NFORWARD_OPEN", "NNOTFOUND", "NSPLIT_USER", "NH2",
                 "NMUX_AUTHFAIL", "NMUX_FORWARD_PROTECTED", "NGRP_REFUSED_JOIN", "NGRP_PROTECTED_DELIVERY",
-                "NHGRP_REFUSED_JOIN", "NHGRP_PROTECTED_DELIVERY"]
+                "NHGRP_REFUSED_JOIN", "NHGRP_PROTECTED_DELIVERY", "NMUXRACE_CLOSED", "NMUXRACE_DELIVERED"]
         if st.get("parts_system"):
             need += ["NSYS_SUBDOMAIN_REFUSED", "NSYS_SUBDOMAIN_FORWARDED"]
         if st.get("parts_web"):
@@ -53,7 +53,7 @@ def recipe(c: Check):
              "scheme, no colon, password prefix, password extended, user in other case, password in other case) x the same 16 in Proxy-Authorization x {HTTP/1.0, HTTP/1.1 with "
              "canonical / lower / upper header names, h2c stream after an upgrade} x targets of 3 fixed + seeded random route tables "
              "(protected, unprotected, user-routed, wildcard, password-only, no backend) on the real vhost.HTTPReverseProxy behind "
-             "net/http on loopback with recording stub backends; CONNECT grid on the real tcpmux muxer (passthrough on/off); group.TCPMuxGroupCtl over the real muxer with 6 member kinds (open, alice, bob, alice twin, password only, wrong group key) joining in every order of 2 and 3 with and without a leave, then CONNECTs with none / right / wrong / other credentials, observing every Listen result and which member accepted; the real "
+             "net/http on loopback with recording stub backends; CONNECT grid on the real tcpmux muxer (passthrough on/off); scripted interleavings on the real muxer (routed listener closed / other listener closed / host re-registered with credentials while the hand-over is blocked, a wildcard listener covering the host); group.TCPMuxGroupCtl over the real muxer with 6 member kinds (open, alice, bob, alice twin, password only, wrong group key) joining in every order of 2 and 3 with and without a leave, then CONNECTs with none / right / wrong / other credentials, observing every Listen result and which member accepted; the real "
              "HTTPAuthMiddleware x 7 methods; http_proxy / socks5 / static_file through the plugin constructors; dashboard "
              "(server.NewService) and frpc admin API on loopback. Compared: status class and which backend/handler saw the request, "
              "against Model/HttpAuth.v; monitor: backend saw the request => its route's credentials were presented. "
